@@ -13,6 +13,9 @@ import (
 	"context"
 	"fmt"
 	"io"
+	"lunar/toolkit-core/clock"
+	"lunar/toolkit-core/vacuum"
+	"lunar/toolkit-core/verifrt/vsync"
 	"net/http"
 	"os"
 	"path/filepath"
@@ -277,6 +280,61 @@ func accessorScenario() *mc.SchedOpts {
 	}
 }
 
+// vacuumScenario: the background vacuum pass of a MapVacuum (ttl 2 s, tick 1 s) racing the
+// registration of a new key, at the component level.  In every one-at-a-time order each
+// registered key is removed from the map within ttl + 2 ticks; a key that is still there long
+// after that was lost by the vacuum's bookkeeping.
+func vacuumScenario() *mc.SchedOpts {
+	type st struct {
+		m  map[string]int
+		mu *vsync.RWMutex
+		v  *vacuum.MapVacuum[string, int]
+	}
+	return &mc.SchedOpts{Name: "vacuum-pass-vs-new-key", MaxT: 10, Quantum: time.Second, IdleAfterDone: 6,
+		Focus: []string{"lunar/toolkit-core/vacuum"},
+		Body: func(x *mc.Exec) {
+			s := &st{m: map[string]int{}, mu: &vsync.RWMutex{}}
+			v := vacuum.NewMapVacuum[string, int]("verif", clock.NewRealClock(), 2*time.Second, time.Second, s.m, s.mu)
+			s.v = &v
+			x.Vals["st"] = s
+			put := func(k string) {
+				s.mu.Lock()
+				s.m[k] = 1
+				s.mu.Unlock()
+				s.v.VacuumKey(k)
+			}
+			put("a") // starts the background loop
+			x.Go("W", func() {
+				time.Sleep(2500 * time.Millisecond) // "a" is due; the pass at 3 s removes it
+				x.Yield("woke")
+				put("b")
+				time.Sleep(500 * time.Millisecond)
+				x.Yield("woke")
+				put("c")
+			})
+		},
+		Check: func(x *mc.Exec) (string, string) {
+			s := x.Vals["st"].(*st)
+			if x.Horizon {
+				return "", ""
+			}
+			s.mu.RLock()
+			var left []string
+			for k := range s.m {
+				left = append(left, k)
+			}
+			s.mu.RUnlock()
+			sort.Strings(left)
+			x.Logf("left=%v at %v", left, x.Now())
+			if len(left) > 0 && x.Now() >= 9*time.Second {
+				return "VACUUM-LOST-KEY", fmt.Sprintf("keys %v are still in the map at %v, long after their time-to-live (2 s) and several vacuum passes: the vacuum lost them", left, x.Now())
+			}
+			return "", ""
+		},
+		Teardown: func(x *mc.Exec) { x.Vals["st"].(*st).v.VerifStop() },
+	}
+}
+
 // ---- race report parsing -----------------------------------------------------------
 
 var frameRe = regexp.MustCompile(`^  (\S.*)\(\)$`)
@@ -392,7 +450,7 @@ func TestCheck(t *testing.T) {
 	for _, sc := range scenarios() {
 		names = append(names, sc.Name)
 	}
-	names = append(names, "policy-lookup-vs-reload-vs-vacuum")
+	names = append(names, "policy-lookup-vs-reload-vs-vacuum", "vacuum-pass-vs-new-key")
 	r.Rule = fmt.Sprintf("all schedules (<=%d preemptions) of scenarios %s on a real engine / accessor, built with -race with the scheduler's hand-offs hidden from the detector; a violation is a happens-before race between two repository functions in any explored schedule, or a set of verdicts that no one-at-a-time order produces; distinct = observation logs", pre, strings.Join(names, ","))
 	r.Assume("Go race detector as per-schedule happens-before oracle; reports whose conflicting access is in harness code are ignored",
 		"scheduling decisions at sync operations of lunar/engine/streams, lunar/engine/config, toolkit-core/vacuum")
@@ -412,6 +470,10 @@ func TestCheck(t *testing.T) {
 		mc.Explore(t, r, o)
 	}
 	o := accessorScenario()
+	o.MaxPreempt = pre
+	o.MaxExecutions = int64(mc.Pick(r, 6000, 100000))
+	mc.Explore(t, r, o)
+	o = vacuumScenario()
 	o.MaxPreempt = pre
 	o.MaxExecutions = int64(mc.Pick(r, 6000, 100000))
 	mc.Explore(t, r, o)
